@@ -147,6 +147,7 @@ def m_as_locked_write(em, e, rt, rty, env, k):
 
 
 VOCAB = {
+    "for_ret_state": True,     # a `return` inside an eager `for` carries the loop variables (the stream that was written to)
     "result": {"err": "ekind"},
     "type_alias": {"S": WRITER, "IoSlice": BYTES},
     "enums": {},
@@ -289,6 +290,7 @@ def wc_inner_fuel(env):
 
 
 WVOCAB = {
+    "for_ret_state": True,     # a `return` inside an eager `for` carries the loop variables (the stream that was written to)
     "result": {"err": "ekind", "enum": "ErrorKind"},
     "loop_ret_state": True,
     "no_transparent": ["as_bytes"],
